@@ -297,9 +297,64 @@ def r7(ctx, facts):
     r.instance("single-constructor-site", len(ctor_callers) == 1, "merge_channel() is constructed at: %s" % sorted(fn_short(p) for p in ctor_callers))
 
 
+def r8(ctx, facts):
+    """what the producer merges into a pending update must not discard what is already pending"""
+    r = ctx.rule("R8", "merging into a pending update never drops pending refresh replies", floor=4)
+    MC = "scylla::cluster::metadata::update::MetadataChanges"
+    bodies = [b for b in facts.find(r"^scylla::cluster::metadata::update::MetadataUpdate::merge_\w+$")]
+    if len(bodies) < 3:
+        raise AnchorLost("MetadataUpdate::merge_* functions not found")
+    from ..util import backward_slice
+    n = 0
+    for b in bodies:
+        df = df_of(b, facts)
+        # whole-value stores into `.metadata_changes`
+        stores = []
+        for bb in sorted(b.live_blocks):
+            for j, s in enumerate(b.stmts(bb)):
+                if s[0] == "A" and s[1][1] and path_last(df.canon.path(s[1])) == "metadata_changes":
+                    stores.append((bb, j, s))
+        # edges taken when the pending value is `Full`
+        full_targets, tested = [], []
+        for bb in b.live_blocks:
+            t = b.term(bb)
+            if t[0] != "switch":
+                continue
+            e = df.expr_of_operand(t[1])
+            if e[0] == "disc" and "metadata_changes" in e[1][1]:
+                tested.append(bb)
+                if df.disc_ty.get(e[1], "") == MC:
+                    for v, tg in t[2]:
+                        if facts.variant_by_discr(MC, v) == "Full":
+                            full_targets.append(tg)
+                    listed = {facts.variant_by_discr(MC, v) for v, _ in t[2]}
+                    if "Full" not in listed:
+                        full_targets.append(t[3])
+        for bb, j, s in stores:
+            n += 1
+            guarded = any(b.dominates(tb, bb) for tb in tested)
+            via_full = (not guarded) or any(bb in b.reachable_from(tg) for tg in full_targets)
+            ok = not via_full
+            why = "stored only where the pending value is None / Partial"
+            if via_full:
+                # acceptable only if the new value carries the old reply channels over
+                locs, calls, _ = backward_slice(b, s[2][1] if s[2][0] == "use" else ["c", [s[1][0], []]])
+                from .c20 import slice_fields
+                carried = "refresh_responses" in slice_fields(b, s[2][1]) if s[2][0] == "use" else False
+                ok = carried
+                why = "overwrites `metadata_changes` while a Full update (with the reply channels of pending refresh requests) may be pending, and does not carry its refresh_responses over"
+            r.instance("%s:store#%d" % (fn_short(b.path), n), ok, why, b.stmt_span(s))
+        # the Full arm of merge_metadata appends the new channel
+        if b.path.endswith("::merge_metadata"):
+            pushes = [c for c in b.calls_to("Vec::<T, A>::push", "Vec::<T, A>::extend", "Vec::<T, A>::append") if any(c.bb in b.reachable_from(tg) for tg in full_targets)]
+            r.instance("merge_metadata:full-arm-appends-reply", bool(pushes), "when a Full update is already pending, the new refresh reply channel must be appended to its refresh_responses", b.span)
+    if n == 0:
+        raise AnchorLost("no store into MetadataUpdate.metadata_changes found")
+
+
 def check(ctx):
     facts = ctx.facts("default")
-    for fn in (r1_r4, r2, r3, r5, r6, r7):
+    for fn in (r1_r4, r2, r3, r5, r6, r7, r8):
         try:
             fn(ctx, facts)
         except AnchorLost as ex:
